@@ -53,7 +53,7 @@ def map_rule(chk, db):
             problems = []
             value_param = next((p["n"] for p in f["params"] if p["ty"].endswith("&") and "const" not in p["ty"]), None)
             ptr_param = f["params"][spec["error_ptr"]]["n"]
-            for p in SP.paths(f["body"]):
+            for p in SP.normalised_paths(f["body"]):
                 conds = []
                 stored_value = False
                 for ev in p:
